@@ -119,6 +119,73 @@ def h_structure(ex, doc_lens, mode):
     return {"vocab": [[t, vocab[t]] for t in kept]}
 
 
+def h_ngram_stage2(ex, doc_lens, mode, cooc=False):
+    """second-stage pruning of n-grams with the same bounds (NgramVectorizer, ngram_size = 2): the fitted columns are
+    exactly the bigrams of the token-pruned sequences that meet every bound at the n-gram level"""
+    ng = loader.load("vectorizers.ngram_vectorizer")
+    docs = [[fresh_int("t%d_%d" % (d, j), 0, None) for j in range(n)] for d, n in enumerate(doc_lens)]
+    register("docs", docs)
+    nd = len(docs)
+    kw = {}
+    lo = hi = dlo = dhi = None
+    if mode == "occ":
+        lo = fresh_int("min_occ", 1, 3)
+        kw.update(min_occurrences=lo)
+    elif mode == "mindoc":
+        dlo = fresh_int("min_doc", 1, nd)
+        kw.update(min_document_occurrences=dlo)
+    elif mode == "maxdoc":
+        dhi = fresh_int("max_doc", 1, nd)
+        kw.update(max_document_occurrences=dhi)
+    elif mode == "docfreq":
+        dlo = fresh_int("min_doc", 1, nd)
+        kw.update(min_document_frequency=to_real(dlo) / nd)
+    register("params", {"mode": mode, "lo": lo, "dlo": dlo, "dhi": dhi})
+    est = ng.NgramVectorizer(ngram_size=2, ngram_behaviour="exact", **kw)
+    try:
+        call(est.fit, [list(d) for d in docs], expected=(ValueError, ZeroDivisionError))
+    except (ValueError, ZeroDivisionError):
+        # fit refuses corpora on which pruning leaves no token / no n-gram at all (ValueError, or ZeroDivisionError
+        # from the occurrence -> frequency conversion with zero n-grams): outside this property's statement
+        raise PathAbort()
+
+    def stats(items_per_doc):
+        flat = [g for d in items_per_doc for g in d]
+
+        def eq(a, b):
+            return sand(*[x == y for x, y in zip(a, b)]) if isinstance(a, tuple) else (a == b)
+
+        def count(t):
+            return sum((ite(eq(u, t), 1, 0) for u in flat), 0)
+
+        def dcount(t):
+            return sum((ite(sor(*[eq(u, t) for u in d]), 1, 0) for d in items_per_doc), 0)
+
+        def meets(t):
+            cs = []
+            if lo is not None:
+                cs.append(count(t) >= lo)
+            if dlo is not None:
+                cs.append(dcount(t) >= dlo)
+            if dhi is not None:
+                cs.append(dcount(t) <= dhi)
+            return sand(*cs)
+        return flat, meets, eq
+    # stage 1 (tokens), then the documented deletion of pruned tokens, then stage 2 (bigrams of what is left)
+    _, meets_tok, _ = stats(docs)
+    kept_docs = [[t for t in d if bool(meets_tok(t))] for d in docs]
+    grams = [[(d[i], d[i + 1]) for i in range(len(d) - 1)] for d in kept_docs]
+    flat, meets_gram, eq = stats(grams)
+    cols = list(est.column_label_dictionary_.keys())
+    check("every fitted n-gram column satisfies every bound at the n-gram level",
+          sand(*[sand(sor(*[eq(c, g) for g in flat]) if flat else False, meets_gram(c)) for c in cols]))
+    check("every n-gram satisfying every bound has a column",
+          sand(*[simplies(meets_gram(g), sor(*[eq(g, c) for c in cols]) if cols else False) for g in flat]))
+    idx = [est.column_label_dictionary_[c] for c in cols]
+    check("column indices are 0..n-1", sorted(int(i) for i in idx) == list(range(len(cols))))
+    return None
+
+
 def h_rounding(ex, N, mode, rel, nlo=2):
     """IEEE-754: count == bound is kept (rel='eq'); the adjacent count on the wrong side is pruned (rel='adj')"""
     fp.enable("numpy")
@@ -176,6 +243,14 @@ def cases(tier):
                        replay="C05:replay_structure",
                        bounds={"document lengths": list(d), "constraints": m, "bounds": "symbolic", "tokens": "unconstrained integers"},
                        functions=FUNCS, shards=8 if sum(d) >= 4 else 1, shard_depth=8))
+    ggrid = [((2, 2), "mindoc"), ((2, 1), "maxdoc"), ((3,), "occ"), ((2, 2), "docfreq")] if tier == "quick" else \
+        [(d, m) for d in ((2, 2), (3, 2), (2, 1, 2), (4,)) for m in ("occ", "mindoc", "maxdoc", "docfreq")]
+    for d, m in ggrid:
+        cs.append(Case("ngram_stage2[docs=%s,%s]" % ("+".join(map(str, d)), m), h_ngram_stage2, dict(doc_lens=list(d), mode=m),
+                       replay="C05:replay_ngram_stage2", functions=FUNCS + ["ngram_vectorizer.NgramVectorizer.fit"],
+                       bounds={"document lengths": list(d), "constraint": m, "bound": "symbolic", "ngram_size": 2},
+                       assumptions=["corpora on which fit raises because pruning leaves nothing are outside the statement"],
+                       shards=8 if sum(d) >= 4 else 1, shard_depth=8))
     for mode in ("min", "max"):
         for rel in ("eq", "adj"):
             cs.append(Case("rounding[%s,%s,N=%d]" % (mode, rel, N), h_rounding, dict(N=N, mode=mode, rel=rel), replay="C05:replay_rounding",
